@@ -115,7 +115,7 @@ def gen_adt(rng, tier):
 
 
 CONC = {
-    "once": ["W", "O", "P", "X", "H", "F", "M", "D", "T", "A"],
+    "once": ["W", "O", "P", "X", "H", "F", "M", "D", "T", "A", "B"],
     "limit": ["W", "P", "X", "F"],
     "oplimit": ["O"],
     "oplimitf": ["O"],
@@ -123,11 +123,12 @@ CONC = {
     "oplaunch": ["O"], "opsignal": ["O"], "opstartgroup": ["O"], "opadd": ["O"],
     "wlaunch": ["W"], "wsignal": ["W"], "wbackground": ["W"], "pbackground": ["P"], "xbackground": ["X"],
     "wstartgroup": ["W"],
+    "wstartgroupx": ["W"],
     "plaunch": ["P"],
 }
 BACKGROUND = {"plaunch", "oplaunch", "opsignal", "opstartgroup", "opadd", "wlaunch", "wsignal", "wbackground", "pbackground",
-              "xbackground", "wstartgroup"}
-ONCE_KIND = {"M": "F", "D": "F", "A": "F", "T": "O"}
+              "xbackground", "wstartgroup", "wstartgroupx"}
+ONCE_KIND = {"M": "F", "D": "F", "A": "F", "T": "O", "B": "O"}
 
 
 def gen_conc(rng, tier):
@@ -135,7 +136,7 @@ def gen_conc(rng, tier):
     kind = rng.choice(CONC[subject])
     n = rng.choice([1, 1, 2, 3, 5])
     g = rng.choice([1, 2, 2, 3, 4, 4, 8, 16, 32, 64])
-    if subject in ("opstartgroup", "wstartgroup"):
+    if subject in ("opstartgroup", "wstartgroup", "wstartgroupx"):
         n = rng.choice([1, 2, 3, 5, 8])
         g = rng.choice([1, 2, 3, 8])
     if subject == "lock" and g > 16:
@@ -508,7 +509,7 @@ def conc_predicate(t, obs):
                 return f"Producer.Launch: {ret} waiters had returned when only {j} executions had ended"
         return None
     # background starters: no waiter may return while an execution is still in progress
-    total = n if subject in ("opstartgroup", "wstartgroup", "opadd") else 1
+    total = n if subject in ("opstartgroup", "wstartgroup", "wstartgroupx", "opadd") else 1
     if inv != total:
         return f"{subject}: {inv} background executions, expected {total}"
     for ret, inside in phases:
@@ -519,7 +520,7 @@ def conc_predicate(t, obs):
         want = sorted(["0/" + e.split("/", 1)[1]] + ["0/"] * (g - 1))
         if sorted(res) != want:
             return f"{subject}: waiters observed {sorted(res)}, expected {want}"
-    if subject == "wstartgroup":
+    if subject in ("wstartgroup", "wstartgroupx"):
         atoms = sorted(a for j in range(n) for a in outcome(j).split("/", 1)[1].split("+") if a)
         if any(r != "0/" + "+".join(atoms) for r in res):
             return f"Worker.StartGroup: waiters observed {sorted(set(res))}, the workers failed with {atoms}"
